@@ -125,6 +125,11 @@ func jobsFor(prop, tier string) []*Job {
 		}
 		add(&Job{Name: "O2-host-header-dispatch", Pkg: "utils", Harness: "VerifC19Others", IncKind: "cvc5", TimeoutS: 60, Solvers: []string{"cvc5", "z3"},
 			Bounds: "symbolic Host and header value (<= 8 bytes), symbolic variable name (<= 20 bytes)"})
+	case "C16":
+		add(&Job{Name: "O1-error-map", Pkg: "forward", Harness: "VerifC16ErrorMap",
+			Bounds: "error kinds: net.Error (timeout flag symbolic), io.EOF, wrapped EOF, context.Canceled, doubly wrapped Canceled, other; through forward.New(passHost symbolic).ErrorHandler"})
+		add(&Job{Name: "O2-listener-pairing", Pkg: "forward", Harness: "VerifC16Listener",
+			Bounds: "StateListener.ServeHTTP with a next handler that returns, panics with http.ErrAbortHandler, or panics otherwise (symbolic)"})
 	}
 	return js
 }
